@@ -92,15 +92,29 @@ cb_outside_touched(const cbuf_t *b) {
 	return (0);
 }
 
+/* A fresh heap context for (sbox, key, le/be).  The real init runs once per distinct triple; later requests
+ * get a byte copy of that pristine context (init is deterministic; gost28147_final wipes the copy). */
 static gost28147_context_t *
 ctx_new(int sbox, const uint8_t *key, int be) {
+	static gost28147_context_t pristine;
+	static uint8_t pkey[32];
+	static int psbox = -1, pbe = -1, prc = 0;
 	gost28147_context_t *ctx = (gost28147_context_t *)malloc(sizeof(*ctx));
-	uint8_t *k = (uint8_t *)vh_dup(key, 32);
-	int rc;
-	memset(ctx, 0x5a, sizeof(*ctx));
-	rc = be ? gost28147_init_be(k, 32, SBOXES[sbox].sbox, ctx) : gost28147_init(k, 32, SBOXES[sbox].sbox, ctx);
-	free(k);
-	if (0 != rc) {
+	uint8_t *k;
+
+	if (psbox != sbox || pbe != be || 0 != memcmp(pkey, key, 32)) {
+		k = (uint8_t *)vh_dup(key, 32);
+		memset(ctx, 0x5a, sizeof(*ctx));
+		prc = be ? gost28147_init_be(k, 32, SBOXES[sbox].sbox, ctx) : gost28147_init(k, 32, SBOXES[sbox].sbox, ctx);
+		free(k);
+		memcpy(&pristine, ctx, sizeof(pristine));
+		memcpy(pkey, key, 32);
+		psbox = sbox;
+		pbe = be;
+	} else {
+		memcpy(ctx, &pristine, sizeof(*ctx));
+	}
+	if (0 != prc) {
 		free(ctx);
 		return (NULL);
 	}
@@ -299,22 +313,26 @@ blocks_all(void) {
 		  0xff, 0xff, 0xff, 0xff, 0xff, 0xff, 0xff, 0xff },
 		{ 0x80, 0, 0, 0, 0, 0, 0, 0x01, 0x00, 0x00, 0x00, 0x80, 0x01, 0, 0, 0, 0x7f, 0xff, 0xff, 0xff, 0xfe, 0xff, 0xff, 0xff }
 	};
+#ifdef C08_LIGHT	/* ASan builds: the 3-letter alphabet in both tiers */
+	const uint8_t *A = A3;
+	uint32_t base = 3, tot = 1, v, t;
+#else
 	const uint8_t *A = vh_thorough ? A4 : A3;
 	uint32_t base = vh_thorough ? 4 : 3, tot = 1, v, t;
+#endif
 	uint8_t blk[8];
 	int s, k, f, i, sa, da, m;
 	size_t blocks, split, ms;
 
 	for (i = 0; i < 8; i ++) tot *= base;
 	/* (i) single blocks, aligned */
-	for (s = 0; s < NSBOX; s ++) for (k = 0; k < NKEYS; k ++) for (v = 0; v < tot; v ++) {
+	for (s = 0; s < NSBOX; s ++) for (k = 0; k < NKEYS; k ++) for (f = 0; f < F_N; f ++) for (v = 0; v < tot; v ++) {
+		if (!vh_begin(FN[f]))
+			continue;
 		for (i = 0, t = v; i < 8; i ++, t /= base) blk[i] = A[t % base];
-		for (f = 0; f < F_N; f ++) {
-			if (!vh_begin(FN[f]))
-				continue;
-			check_one(f, s, k, blk, 1, 0, 0, 0, 8);
-		}
+		check_one(f, s, k, blk, 1, 0, 0, 0, 8);
 	}
+	printf("NOTE\tgost single-block alphabet size=%u (^8 blocks) keys=%d\n", base, NKEYS);
 	/* (ii) 0..3 blocks x source alignment x destination alignment */
 	for (s = 0; s < NSBOX; s ++) for (k = 2; k < 4; k ++) for (m = 0; m < 4; m ++) for (blocks = 0; blocks <= 3; blocks ++)
 	for (sa = 0; sa < 8; sa ++) for (da = 0; da < 8; da ++) for (f = 0; f < F_N; f ++) {
